@@ -5,7 +5,7 @@ import ast
 
 from sa.cfg import CFG, ReachingDefs
 from sa.gaps import COLLECT1, COLLECT2, analyse_class, coverage
-from sa.model import AnalysisError, Program, norm, walk_no_nested
+from sa.model import AnalysisError, Program, alpha, norm, walk_no_nested
 from sa.report import Results
 from sa.rules.c01 import content_findings, renderer_classes
 from sa.tables.grammar import ARGS_PRODUCTION, GENERIC_CLASSES, PRODUCTIONS
@@ -85,8 +85,14 @@ def run(prog: Program) -> Results:
         t = norm(f.node)
         if cname == "NixList":
             t += norm(prog.func("process_list").node)
-        generic = "parse_delimited_sequence(" in t or "parse_binding_sequence(" in t or "process_list(" in t or \
-            ("for child in children" in t and "child.type == 'comment'" in t)
+        loop_walk = False
+        for lp in [n for n in ast.walk(f.node) if isinstance(n, ast.For) and isinstance(n.target, ast.Name)]:
+            lv = lp.target.id
+            over_children = "children" in norm(lp.iter) or any(
+                isinstance(d, ast.Assign) and norm(d.targets[0]) == norm(lp.iter) and "children" in norm(d.value) for d in ast.walk(f.node))
+            if over_children and f"{lv}.type == 'comment'" in norm(lp):
+                loop_walk = True
+        generic = "parse_delimited_sequence(" in t or "parse_binding_sequence(" in t or "process_list(" in t or loop_walk
         r1.ob(generic, {"class": cname, "generic": why})
         if not generic:
             res.add("R-C03-1", (cname, "generic walk missing"), f.loc(),
@@ -103,9 +109,8 @@ def run(prog: Program) -> Results:
     if loop is not None:
         arm = next((s for s in loop.body if isinstance(s, ast.If) and "'comment'" in norm(s.test)), None)
         if arm is not None:
-            t = norm(arm)
-            ok = "attach_inline_comment(items[-1], comment_expr)" in t and "append_comment_between(before, parent, prev_content, child)" in t \
-                and "continue" in t
+            t = alpha(arm, pds.node, anonymous=True)
+            ok = "$($[-1], $)" in t and "append_comment_between($, $, $, $)" in t and "continue" in t
     r1.ob(ok, {"parse_delimited_sequence": "comment arm attaches inline or appends to pending trivia"})
     if not ok:
         res.add("R-C03-1", ("parse_delimited_sequence", "comment arm"), pds.loc(),
@@ -151,7 +156,7 @@ def run(prog: Program) -> Results:
             ok = target == "<returned>" or (target is not None and not target.startswith("_") and ((id(st.ast), target) in used_defs or nested_use))
             r1c.ob(ok, {"site": f.key, "call": norm(c)[:60], "result": target})
             if not ok:
-                res.add("R-C03-1c", (f.key, "collected comments discarded", norm(c)[:70]), f.loc(c),
+                res.add("R-C03-1c", (f.key, "collected comments discarded", alpha(c, (f.parent or f).node)[:70]), f.loc(c),
                         f"{f.key}: the comments returned by `{norm(c)[:70]}` are "
                         f"{'discarded' if target is None or target.startswith('_') else 'assigned to `' + target + '` but never used'}: "
                         f"the route covers its gap on paper only")
@@ -185,7 +190,7 @@ def run(prog: Program) -> Results:
                         bad.append((n, sg.id, [x.id for x in content_after]))
         r3.ob(not bad, {"class": c, "add_trivia_results": sorted(trivia_vars)})
         for n, v, after in bad:
-            res.add("R-C03-3", (f"{c}.rebuild", "content after trailing trivia", v), f.loc(n),
+            res.add("R-C03-3", (f"{c}.rebuild", "content after trailing trivia"), f.loc(n),
                     f"{c}.rebuild: `{norm(n)[:70]}` appends {after} after `{v}`, which already ends with the node's trailing trivia "
                     f"(`after`): a comment that followed the whole construct is emitted in the middle of it")
 
@@ -195,13 +200,16 @@ def run(prog: Program) -> Results:
     cf = prog.func("Comment.from_cst")
     cs = prog.func("Comment.__str__")
     mr = prog.func("MultilineComment.rebuild")
-    t_from, t_str, t_mr = norm(cf.node), norm(cs.node), norm(mr.node)
+    flat = lambda x: " ".join(x.replace("\n", " ").split())
+    t_from = flat(alpha(cf.node, cf.node, anonymous=True))
+    t_str = flat(alpha(cs.node, cs.node, anonymous=True))
+    t_mr = flat(alpha(mr.node, mr.node, anonymous=True))
     checks = [
-        ("shebang", "text.startswith('#!')" in t_from and "cls(text=text[2:], shebang=True)" in t_from and "if self.shebang: return f'#!{self.text}'" in t_str.replace("\n", " ").replace("    ", " ")),
-        ("hash without space", "space_after_hash = False" in t_from and "text = text[1:]" in t_from and "prefix = '# ' if self.space_after_hash else '#'" in t_str),
-        ("hash with space", "if text.startswith(' '): space_after_hash = True" in t_from.replace("\n", " ").replace("    ", " ") and "f'{prefix}{line}'" in t_str),
-        ("doc opener", "doc = text.startswith('/**')" in t_from and "opener_len = 3 if doc else 2" in t_from and "opening = '/**' if self.doc else '/*'" in t_mr),
-        ("block closer", "inner.endswith('*/')" in t_from and "inner = inner[:-2]" in t_from and "*/" in t_mr),
+        ("shebang", "$.startswith('#!')" in t_from and "cls(text=$[2:], shebang=True)" in t_from and "if self.shebang: return f'#!{self.text}'" in t_str),
+        ("hash without space", "$ = False" in t_from and "$ = $[1:]" in t_from and "$ = '# ' if self.space_after_hash else '#'" in t_str),
+        ("hash with space", "if $.startswith(' '): $ = True" in t_from and "f'{$}{$}'" in t_str),
+        ("doc opener", "$ = $.startswith('/**')" in t_from and "$ = 3 if $ else 2" in t_from and "$ = '/**' if self.doc else '/*'" in t_mr),
+        ("block closer", "$.endswith('*/')" in t_from and "$ = $[:-2]" in t_from and "*/" in t_mr),
     ]
     for name, ok in checks:
         r4.instances += 1
@@ -247,7 +255,7 @@ def run(prog: Program) -> Results:
                         bad.append(c)
             r5.ob(not bad, {"site": f.key, "snapshot": norm(sn)[:50]})
             for c in bad:
-                res.add("R-C03-5", (f.key, "trivia added after snapshot", norm(c)[:70]), f.loc(c),
+                res.add("R-C03-5", (f.key, "trivia added after snapshot", alpha(c, f.node)[:70]), f.loc(c),
                         f"{f.key}: `{norm(c)[:70]}` adds trivia to an item of `{x}` after `_collect_attrpath_order({x})` copied the items' "
                         f"before/after lists: bindings written in attrpath form are rendered from the copies and lose these comments")
     # ---------------------------------------------------------------- R-C03-6 newline flags are measured over the whole gap
@@ -294,7 +302,7 @@ def run(prog: Program) -> Results:
             if not starts:
                 res.unclass(f"{f.key}: `{norm(st)[:60]}` is not derived from a gap_between/gap_from_offsets call")
             for a in bad:
-                res.add("R-C03-6", (f.key, "newline flag from a partial gap", norm(st.targets[0])), f.loc(st),
+                res.add("R-C03-6", (f.key, "newline flag from a partial gap", st.targets[0].attr), f.loc(st),
                         f"{f.key}: `{norm(st)[:70]}` is computed from a gap that starts at `{a.id}`, a cursor that advances over comments: "
                         f"an end-of-line comment before the value is then followed by text on the same line and absorbs it")
     res.tables.append(f"sa/tables/grammar.py: {len(PRODUCTIONS)} productions, {len(GENERIC_CLASSES)} generic walkers")
